@@ -27,6 +27,14 @@ CHECKS = {
             "Same simulator; running-task and serving-worker counts are evaluated after every event, the lower bound between start() and stop(), constructor rejection/clamping over valid and invalid configurations, and progress of up to max_threads mutually dependent (barrier) tasks within a virtual-time bound; thread start failure is injected in a separate configuration where only the upper bounds are asserted."),
     "C11": ("exploration", "4 C11", "deterministic simulation: seeded schedule search over lifecycle histories, deadlock detection by quiescence",
             "Same simulator; join()/join(timeout) results are compared with the completion state of earlier tasks at the return instant, stop()/start()/join() termination is decided by the simulator's deadlock and stall detector (virtual time makes hangs cost microseconds), workers must have terminated after stop(), lifecycle calls must be idempotent and never raise."),
+    "C01": ("exploration", "4 C01", "deterministic simulation (fault-free configuration): configuration x schedule x segmentation search of the whole client/server stack, reference call log + JSON normalisation oracle",
+            "The fault-free configuration of the full-system simulation: real ServerProxy/MultiCall clients, simulated byte-stream network with seeded segmentation and delay, real plain/pooled/bare-dispatcher servers over TCP, Unix and loopback, protocol versions 1.0/2.0 on both sides; every call has its own registered callable, so exactly-once invocation, argument fidelity, typed equality of the returned value and History == wire transcript are decided per call. The value dimension is sampled by the seeded generator; what the simulator adds is the configuration x schedule x segmentation product and exactly-once under pooled schedules."),
+    "C04": ("exploration", "4 C04", "deterministic simulation: schedule search of notification-pool workers vs request thread, wire oracle + drained call log",
+            "Real dispatcher and servers with the notification pool absent or present (1-3 workers) and default / handler-level / instance-level custom dispatch functions; requests built by the client API and raw bodies for the shapes it cannot produce (id null, id '', batches with invalid entries); oracle: number of response objects equals the number of non-notification entries, no response object carries a notification's token, every executable notification is in the call log exactly once after the pools are drained, client notification calls return None, no worker is killed."),
+    "C12": ("exploration", "4 C12", "deterministic simulation: concurrent clients x server threads x request-pool workers, lifecycle histories, client-death fault injection, differential sequential replay + deadlock detection",
+            "Full system with 1-4 concurrent clients, plain / pooled (default and user pools of 1-4 workers) servers on TCP and Unix listeners, lifecycle histories {serve_forever, handle_request loop, never served, shutdown with requests in flight, double close} and clients that die in the middle of a request body; oracle: each wire reply equals the reply of the same request on a fresh dispatcher served alone, clients only see their own tokens, executions are neither lost nor duplicated, shutdown()/server_close() return (simulated deadlock / stall / livelock detector), listener closed and pool workers terminated afterwards."),
+    "C13": ("exploration", "4 C13", "deterministic simulation: request histories and concurrent dispatcher threads, differential against a fresh server per request, Config snapshots",
+            "Histories of 1.0/2.0 calls, notifications, batches, invalid and failing requests on one long-lived server (bare dispatcher driven by 1-4 concurrent threads, plain and pooled servers), default and raising custom dispatch functions, methods returning Fault objects; oracle: each reply equals the reply of a fresh server to the same request, explicit 1.0/own-form rule for valid requests, field-by-field snapshots of the server Config and config.DEFAULT before and after, and a seeded mutation fragment on Config.copy() in both directions."),
     "C16": ("exploration", "4 C16", "deterministic simulation: line-level interleaving search of set_callback/execute/done/result, history oracle",
             "Generated scripts from 2-4 threads on one FutureResult with pre-emption at every source line of threadpool.py; per-registration callback counts and arguments, done()/result() observations ordered against task completion, exact virtual time of result(timeout) expiry, containment of callback exceptions."),
 }
